@@ -56,27 +56,33 @@ def num_unit(name, loc, maxlen, what):
         name, 'C05',
         cuts=[Cut('nn', X, loc,
                   rules=[(r'#if defined\(_MSC_VER\)[^\n]*\n[^\n]*\n#else\n([^\n]*\n)#endif', r'\1', None), (r'#ifndef ASL_NO_FIX_DOT', '', None), (r'#endif', '', None),
+                         (r'char\* p = &_out\[n\];\s*while \(\*p\)\s*\{(?:.|\n)*?p\+\+;\s*\}', 'OUT_SCAN(OUT_PTR(n));', None), (r'while \(\*(\w+)\)\s*\{(?:.|\n)*?\1\+\+;\s*\}', r'OUT_SCAN(\1);', None),
                          (r'_out\.length\(\)', 'g_len', None), (r'_out\.resize\(([^;]*)\);', r'OUT_RESIZE(\1);', None),
-                         (r'_out\.fix\(n \+ snprintf\(&_out\[n\], (\d+), _fmt[DF], x\)\);', r'OUT_FIX(n + vf_snprintf(n, \1));', None),
-                         (r'_out\.fix\(n \+ myitoa\(x, &_out\[n\]\)\);', r'OUT_FIX(n + vf_snprintf(n, 12));', None),
+                         # pointers into the output string are handles (buffer generation, index): a resize that grows the string may move it
+                         (r'char\* (\w+) = &_out\[(\w+)\];', r'int \1 = OUT_PTR(\2);', None), (r'&_out\[(\w+)\]', r'OUT_PTR(\1)', None),
+                         (r'_out\.fix\(n \+ snprintf\(([^,]+), (\d+), _fmt[DF], x\)\);', r'OUT_FIX(n + vf_snprintf(\1, \2));', None),
+                         (r'_out\.fix\(n \+ myitoa\(x, ([^;]+)\)\);', r'OUT_FIX(n + vf_snprintf(\1, 12));', None),
                          (r'_out << [^;]*;', 'g_special = 1;', None), (r'!isfinite\(x\)', 'nondet_int()', None), (r'x != x', 'nondet_int()', None), (r'x < 0', 'nondet_int()', None),
-                         (r'char\* p = &_out\[n\];\s*while \(\*p\)\s*\{(?:.|\n)*?p\+\+;\s*\}', 'OUT_SCAN(n);', None)])],
+                         ])],
         text=r'''
 #include "vf_base.h"
 int nondet_int(void);
 /* String _out: length g_len, capacity g_cap (String::resize(m): capacity > m, C03); the text at [n, ...) is tracked by its length */
-int g_len, g_cap, g_written, g_special, g_fixed;
-#define OUT_RESIZE(m) { __CPROVER_assert((m) >= 0, "resize"); if (g_cap <= (m)) g_cap = (m) + 1; }
+int g_len, g_cap, g_written, g_special, g_fixed, g_gen;
+#define OUT_RESIZE(m) { __CPROVER_assert((m) >= 0, "resize"); if (g_cap <= (m)) { g_cap = (m) + 1; g_gen++; /* String::resize beyond the capacity allocates a new block (C03) */ } }
+#define VF_PBASE 4000000
+#define OUT_PTR(i) (g_gen * VF_PBASE + (i))
+#define OUT_LIVE(h) __CPROVER_assert((h) / VF_PBASE == g_gen, "a pointer into the output string is not used after a resize that may have moved the string")
 /* snprintf(buf, size, "%.17g"/"%.9g", finite x) resp. myitoa: needs L characters, 1 <= L <= MAXLEN; writes min(L, size-1) characters and a NUL; returns L (ISO C) */
-static int vf_snprintf(int at, int size) { int L = nondet_int(); __CPROVER_assume(1 <= L && L <= MAXLEN);
+static int vf_snprintf(int h, int size) { OUT_LIVE(h); int at = h % VF_PBASE; int L = nondet_int(); __CPROVER_assume(1 <= L && L <= MAXLEN);
   __CPROVER_assert(at + size <= g_cap, "the buffer handed to snprintf/myitoa lies inside the string's capacity");
   g_written = (L < size - 1 || size == 12) ? L : size - 1; return L; }
 #define OUT_FIX(m) { __CPROVER_assert((m) - n == g_written, "fix(): the new length is the number of characters actually written (no truncation, NUL at the end)"); __CPROVER_assert((m) < g_cap, "length below capacity"); g_len = (m); g_fixed = 1; }
-#define OUT_SCAN(n) { }
+#define OUT_SCAN(h) { OUT_LIVE(h); }
 void XdlEncoder_new_number(void)
-__CPROVER_requires(0 <= g_len && g_len < 1000000 && g_cap > g_len && g_cap < 2000000 && g_fixed == 0 && g_special == 0)
+__CPROVER_requires(0 <= g_len && g_len < 1000000 && g_cap > g_len && g_cap < 2000000 && g_fixed == 0 && g_special == 0 && 0 <= g_gen && g_gen < 100)
 __CPROVER_ensures(g_fixed || g_special)
-__CPROVER_assigns(g_len, g_cap, g_written, g_special, g_fixed)
+__CPROVER_assigns(g_len, g_cap, g_written, g_special, g_fixed, g_gen)
 @@nn@@
 void vf_harness(void) { XdlEncoder_new_number(); VF_CANARY(); }
 ''',
@@ -145,6 +151,10 @@ void vf_harness(void) {
     trusted=['IEEE 754: 9 / 17 significant decimal digits identify every binary32 / binary64 value; printf/atof correctly rounded (libc)'],
 )
 UNITS += [fmt_precision]
+
+# the decoder half of the round trip: the parser step with its invariant (escape / \\uXXXX handling, token buffer) is C06's unit, re-run here
+from units.C06 import step_safety as _ss5
+UNITS += [_ss5]
 
 # replay: per-value lemmas and buffer units have no direct native input; the driver's battery (every byte in values/keys, key lengths 0..40, numeric boundaries,
 # prefixes, 2-chunk cuts, tiny files) runs on the real encoder/decoder instead
